@@ -308,42 +308,84 @@ func runC09(t *testing.T, e *worlds.Env, tier string) (bool, any) {
 				}
 				runs = append(runs, run{a, k, r, first})
 			}
-			// assign runs to arrival indexes: by earliest candidate, each taking the
-			// smallest start >= its earliest candidate whose datagrams are all still free
-			for i := 1; i < len(runs); i++ {
-				for j := i; j > 0 && runs[j].first < runs[j-1].first; j-- {
-					runs[j], runs[j-1] = runs[j-1], runs[j]
-				}
-			}
-			for _, rn := range runs {
-				placed := false
-				for i := rn.first; i < len(ds) && !placed; i++ {
+			// assign runs to arrival indexes without overlap. The network may duplicate
+			// datagrams (identical arrivals), so a run can have several candidate positions:
+			// search for any consistent assignment (runs are few), report only if none exists
+			type cand struct{ i, j int }
+			cands := make([][]cand, len(runs))
+			for x, rn := range runs {
+				for i := rn.first; i < len(ds); i++ {
 					if len(ds[i].Data) == 0 || !isPrefixOfConcat(rn.r, ds[i:]) {
 						continue
 					}
-					// datagrams covered
-					left, j, free := len(rn.r), i, true
+					left, j := len(rn.r), i
 					for left > 0 && j < len(ds) {
-						if delivered[c][j] {
+						left -= len(ds[j].Data)
+						j++
+					}
+					cands[x] = append(cands[x], cand{i, j})
+					if len(cands[x]) >= 8 {
+						break
+					}
+				}
+			}
+			used := make([]bool, len(ds))
+			choice := make([]int, len(runs))
+			budget := 20000
+			var place func(x int) bool
+			place = func(x int) bool {
+				if x == len(runs) {
+					return true
+				}
+				for ci, cd := range cands[x] {
+					if budget--; budget < 0 {
+						return true // search budget exhausted: no verdict (never a violation)
+					}
+					free := true
+					for q := cd.i; q < cd.j; q++ {
+						if used[q] {
 							free = false
 							break
 						}
-						left -= len(ds[j].Data)
-						j++
 					}
 					if !free {
 						continue
 					}
-					for x := i; x < j; x++ {
-						delivered[c][x] = true
+					for q := cd.i; q < cd.j; q++ {
+						used[q] = true
 					}
-					sample.Delivered += j - i
-					placed = true
+					choice[x] = ci
+					if place(x + 1) {
+						return true
+					}
+					for q := cd.i; q < cd.j; q++ {
+						used[q] = false
+					}
 				}
-				if !placed {
-					e.S.Fail("C09/delivered-twice", "udprec", "association %d of client %s (%s) read %d bytes (arrival #%d) that another association of that client had already received",
-						rn.k+1, c, rn.a.G, len(rn.r), rn.first)
-					return
+				return false
+			}
+			if !place(0) {
+				rn := runs[len(runs)-1]
+				for x := range runs {
+					if len(cands[x]) == 1 {
+						rn = runs[x]
+					}
+				}
+				e.S.Fail("C09/delivered-twice", "udprec", "the associations of client %s cannot all have read distinct arrivals: e.g. association %d (%s) read %d bytes (arrival #%d) that another association of that client had already received",
+					c, rn.k+1, rn.a.G, len(rn.r), rn.first)
+				return
+			}
+			if budget >= 0 {
+				for x := range runs {
+					cd := cands[x][choice[x]]
+					for q := cd.i; q < cd.j; q++ {
+						delivered[c][q] = true
+					}
+					sample.Delivered += cd.j - cd.i
+				}
+			} else {
+				for q := range ds {
+					delivered[c][q] = true // no verdict on drops either
 				}
 			}
 		}
@@ -366,8 +408,11 @@ func runC09(t *testing.T, e *worlds.Env, tier string) (bool, any) {
 				if delivered[c][i] || len(d.Data) == 0 {
 					continue
 				}
-				if sockCloseStep >= 0 && d.Step >= sockCloseStep-50 {
-					continue // the server was being shut down
+				if sockCloseStep >= 0 {
+					// the server was shut down during the run: whatever sat in the socket queue or
+					// in the loop's channels at that moment (behind a slow handler: arbitrarily old)
+					// is legitimately lost
+					continue
 				}
 				if hasMatcher {
 					continue // an association that fails matching drops what it prefetched: not attributable per datagram
